@@ -128,9 +128,9 @@ theorem room_when_let_in (g : Graph) (s : State) (n w : Nat) (hf : (g.node n).fl
   room_of_not_occupied g s n w hf h
 
 /-- initially nothing is started -/
-theorem inv_init (g : Graph) (ncls : Nat) (store : List (String × List (String × String))) :
-    Inv g (initState g ncls store) :=
-  inv_initState g ncls store
+theorem inv_init (g : Graph) (ncls : Nat) (store : List (String × List (String × String))) (hidden : List Nat) :
+    Inv g (initState g ncls store hidden) :=
+  inv_initState g ncls store hidden
 
 /-- one scheduler step of any worker, with any outcome of the awaited test and any fuel, preserves the invariant -/
 theorem inv_resume (g : Graph) (s : State) (w : Nat) (out : Outcome) (fuel : Nat) (hH : Homog g) (hI : Inv g s) :
@@ -142,7 +142,7 @@ theorem inv_resume (g : Graph) (s : State) (w : Nat) (out : Outcome) (fuel : Nat
 theorem exclusion (g : Graph) (ncls : Nat) (store : List (String × List (String × String))) (s : State)
     (hH : Homog g) (hr : Reachable g ncls store s) : Inv g s := by
   induction hr with
-  | init => exact inv_init g ncls store
+  | init hidden => exact inv_init g ncls store hidden
   | step s w out fuel _ ih => exact inv_resume g s w out fuel hH ih
 
 /-- the same, spelled out -/
@@ -154,8 +154,9 @@ theorem exclusion_count (g : Graph) (ncls : Nat) (store : List (String × List (
 
 /-- the same for an explicit schedule: any list of (worker, outcome) pairs, of any length -/
 theorem exclusion_schedule (g : Graph) (ncls : Nat) (store : List (String × List (String × String))) (fuel : Nat)
-    (l : List (Nat × Outcome)) (hH : Homog g) : Inv g (runSchedule g fuel (initState g ncls store) l) :=
-  exclusion g ncls store _ hH (reachable_runSchedule g ncls store fuel l _ Reachable.init)
+    (l : List (Nat × Outcome)) (hH : Homog g) (hidden : List Nat := []) :
+    Inv g (runSchedule g fuel (initState g ncls store hidden) l) :=
+  exclusion g ncls store _ hH (reachable_runSchedule g ncls store fuel l _ (Reachable.init hidden))
 
 /-- Without a bump the static thresholds bound the count: if every copy of `n`'s class has
 `max(max_concurrent_tries (default max_tries (default 1)), 1) ≤ B`, at most `B` workers of a scope hold the class. -/
@@ -212,7 +213,7 @@ def s3r : State := runSchedule g3 10 (initState g3 2 []) [(0, noOut), (1, noOut)
 
 example : Homog g3 := by decide
 example : MonoLimits g3 := by decide
-example : Reachable g3 2 [] s3r := reachable_runSchedule g3 2 [] 10 _ _ Reachable.init
+example : Reachable g3 2 [] s3r := reachable_runSchedule g3 2 [] 10 _ _ (Reachable.init [])
 example : Inv g3 s3r := exclusion_schedule g3 2 [] 10 _ (by decide)
 
 set_option maxRecDepth 100000 in
@@ -220,6 +221,32 @@ set_option maxRecDepth 100000 in
 example : (s3r.nd 0).started = some 0 ∧ (s3r.nd 1).started = none ∧ (s3r.wd 1).path = [3] ∧
     scopedCount g3 s3r 1 1 = 1 ∧ classLimit g3 s3r 0 = 1 ∧ isOccupied g3 s3r 1 1 = true ∧
     s3r.nodes.all (fun d => d.bump == 0) = true := by decide +kernel
+
+/-! lazy expansion: the three composite customize nodes are not parsed at the start (`hidden = [0, 1, 2]`); net1 reaches
+the flat customize node, expands it for itself, goes on to its copy and suspends inside it; then net2 expands the flat
+node for itself, reaches its own copy, finds the class occupied and bounces. -/
+
+def g3l : Graph :=
+  { workers := g3.workers,
+    nodes := [
+      { cls := 0, owner := some 0, name := "all.customize.vms.vm1.nets.localhost.net1", pfx := "1a1", sets := [("vm1", "customize")], objs := ["vm1"], setup := [(4, ["vm1"])] },
+      { cls := 0, owner := some 1, name := "all.customize.vms.vm1.nets.localhost.net2", pfx := "1a1", sets := [("vm1", "customize")], objs := ["vm1"], setup := [(4, ["vm1"])] },
+      { cls := 0, owner := some 2, name := "all.customize.vms.vm1.nets.localhost.net3", pfx := "1a1", sets := [("vm1", "customize")], objs := ["vm1"], setup := [(4, ["vm1"])] },
+      { cls := 1, owner := none, name := "all.internal.stateless.noop", pfx := "1", flat := true, sharedRoot := true,
+        cleanup := [(4, [])] },
+      { cls := 2, owner := none, name := "all.customize.vms.vm1", pfx := "1a", flat := true, setless := "all.customize.vms.vm1",
+        setup := [(3, [])], cleanup := [(0, ["vm1"]), (1, ["vm1"]), (2, ["vm1"])] }],
+    root := 3 }
+
+def s3l : State := runSchedule g3l 30 (initState g3l 3 [] [0, 1, 2]) [(0, noOut), (1, noOut)]
+
+example : Homog g3l := by decide
+example : Reachable g3l 3 [] s3l := reachable_runSchedule g3l 3 [] 30 _ _ (Reachable.init [0, 1, 2])
+example : Inv g3l s3l := exclusion_schedule g3l 3 [] 30 _ (by decide) [0, 1, 2]
+
+set_option maxRecDepth 100000 in
+example : s3l.hidden = [2] ∧ (s3l.nd 0).started = some 0 ∧ (s3l.nd 1).started = none ∧ (s3l.wd 1).path = [3] ∧
+    scopedCount g3l s3l 1 1 = 1 ∧ classLimit g3l s3l 0 = 1 ∧ isOccupied g3l s3l 1 1 = true := by decide +kernel
 
 /-- the first bump lowers the threshold of a copy with `max_tries = 3` and no `max_concurrent_tries` from 3 to 1 -/
 def gB : Graph :=
@@ -243,6 +270,6 @@ def s3m : State := runSchedule g3m 10 (initState g3m 2 []) [(0, noOut), (1, noOu
 set_option maxRecDepth 100000 in
 theorem mixed_shapes_overlap :
     ¬ Homog g3m ∧ Reachable g3m 2 [] s3m ∧ scopedCount g3m s3m 0 0 = 2 ∧ classLimit g3m s3m 0 = 1 :=
-  ⟨by decide, reachable_runSchedule g3m 2 [] 10 _ _ Reachable.init, by decide +kernel, by decide +kernel⟩
+  ⟨by decide, reachable_runSchedule g3m 2 [] 10 _ _ (Reachable.init []), by decide +kernel, by decide +kernel⟩
 
 end I2N.Props.C04
